@@ -142,6 +142,27 @@ def stepSeq (st : St) (op : Op) (ins impl : List String) : Option String :=
   | none => some (verdict ("noconf" == "\t".intercalate impl) none "noconf")
   | some pats => stepOp op (toString pats.length :: pats.map hexEncode ++ ins) impl
 
+/-- `home` harness: which planted file's content reached the data directory. -/
+def stepHome (ins impl : List String) : Option String := do
+  let (pats, rest) ← takeList ins
+  match rest with
+  | [loc, kind] =>
+    let loc ← hexDecode loc
+    let kind ← parseKind kind
+    let src : Src := match reader pats loc with
+      | .opened p => if kind == .file then .file p else .none
+      | _ => .none
+    let m := showSrc src
+    let e : Env := ⟨pats, loc, kind, false, false, true⟩
+    match impl with
+    | ["conferr"] => pure (verdict ((confError pats 0).isSome) none "conferr")
+    | [tag, val] =>
+      match parseSrc tag val with
+      | some o => pure (verdict (m == showSrc o && (confError pats 0).isNone) ((srcWhy e o).map ("C17." ++ ·)) m)
+      | none => pure (verdict false none m)
+    | _ => pure (verdict false none m)
+  | _ => none
+
 def step (st : St) (line : String) : St × String :=
   match splitTab line with
   | op :: rest =>
@@ -152,6 +173,9 @@ def step (st : St) (line : String) : St × String :=
         (match stepConf ins impl with | some (s, o) => (s, o) | none => (st, "bad-op"))
       else
       let r := match op with
+        | "C17.hadd" => stepHome ins impl
+        | "C17.hseturl" => stepHome ins impl
+        | "C17.hrefresh" => stepHome ins impl
         | "C17.sadd" => stepSeq st .add ins impl
         | "C17.sseturl" => stepSeq st .setURL ins impl
         | "C17.srefresh" => stepSeq st .refresh ins impl
